@@ -178,6 +178,57 @@ func runC12(c *Ctx) {
 				c.Oracle("decoded-value/"+e.name, in, trunc([]byte(s0)), trunc([]byte(want)), s0 == want, "")
 			}
 		}
+		// a destination that is decoded into again: what it held before (and what the caller still
+		// holds of it) is not written to
+		{
+			type bdst struct {
+				B  []byte   `json:"b"`
+				L  [][]byte `json:"l"`
+				S  string   `json:"s"`
+				RM json.RawMessage
+			}
+			own := bytes.Repeat([]byte{0x5A}, 64)
+			var d bdst
+			d.B = own[:0]
+			d.L = [][]byte{own[16:16], own[32:40]}
+			docs3 := []string{`{"b":"AAECAwQFBgc=","l":["CQoLDA==","DQ4P"],"s":"first","RM":[1]}`, `{"b":"EBESEw==","l":["FBUW"],"s":"2nd","RM":{"k":2}}`, `{"b":"","l":[],"s":"","RM":null}`}
+			var kept [][]byte
+			var keptS []string
+			for _, entry := range []string{"Unmarshal", "Decoder"} {
+				for _, d3 := range docs3 {
+					var err error
+					var pan string
+					if entry == "Unmarshal" {
+						err, pan = safeDo(func() error { return json.Unmarshal([]byte(d3), &d) })
+					} else {
+						err, pan = safeDo(func() error { return json.NewDecoder(strings.NewReader(d3)).Decode(&d) })
+					}
+					if err != nil || pan != "" {
+						continue
+					}
+					kept = append(kept, d.B)
+					keptS = append(keptS, string(d.B))
+					for _, e := range d.L {
+						kept = append(kept, e)
+						keptS = append(keptS, string(e))
+					}
+				}
+			}
+			untouched := true
+			for _, x := range own {
+				if x != 0x5A {
+					untouched = false
+				}
+			}
+			c.Oracle("destination-slice-not-overwritten", in, fmt.Sprintf("%x", own[:24]), "the caller's array as it was", untouched, "")
+			same := true
+			for i := range kept {
+				if string(kept[i]) != keptS[i] {
+					same = false
+				}
+			}
+			c.Oracle("earlier-byte-slices-stable", in, "", "", same, "")
+		}
 		// interface{} destination
 		{
 			data := []byte(doc)
